@@ -253,7 +253,7 @@ int aws_json_value_remove_array_element(struct aws_json_value *array, size_t ind
         return aws_raise_error(AWS_ERROR_INVALID_ARGUMENT);
     }
 
-    if (index > (size_t)cJSON_GetArraySize(cjson)) {
+    if (index >= (size_t)cJSON_GetArraySize(cjson)) {
         return aws_raise_error(AWS_ERROR_INVALID_INDEX);
     }
 
